@@ -241,12 +241,53 @@ func applyStream(cfg applyCfg, n int) {
 		}
 		if cfg.limitMode == 1 {
 			a.limit = int64(pick64(0, 1, 4, 5, 10, 20, 40, 80, 1000000))
+			if chance(0.4) {
+				// a limit right at the boundary: the smallest limit under which this patch still succeeds
+				// (found by bisection on the library itself), or a little below it
+				plain := aopts{neg: a.neg, allow: a.allow, ensure: a.ensure, esc: a.esc}
+				if ob := runApply(doc, joinOps(ops), plain); ob.status == "ok" {
+					lo, hi := int64(0), int64(1<<14)
+					plain.limit = hi
+					if ob2 := runApply(doc, joinOps(ops), plain); ob2.status == "ok" {
+						for hi-lo > 1 {
+							mid := (lo + hi) / 2
+							plain.limit = mid
+							if ob3 := runApply(doc, joinOps(ops), plain); ob3.status == "ok" {
+								hi = mid
+							} else {
+								lo = mid
+							}
+						}
+						if hi > 1 {
+							a.limit = hi - pick64(0, 0, 1, 1, 2)
+							if a.limit < 1 {
+								a.limit = 1
+							}
+						}
+					}
+				}
+			}
 			if !a.allow && !a.ensure && a.esc && chance(0.3) {
 				a.globals = true
 			}
 		}
 		if cfg.extra && chance(0.5) {
 			a.indent = pick(" ", "  ", "\t", "    ", " \t")
+		}
+		if cfg.extra && chance(0.03) {
+			// a document nested a few dozen levels deep, indented (a fixed pad of indent units runs out)
+			d := 28 + rng.Intn(45)
+			var open, close string
+			for q := 0; q < d; q++ {
+				if chance(0.5) {
+					open, close = open+"[", "]"+close
+				} else {
+					open, close = open+`{"a":`, "}"+close
+				}
+			}
+			doc = []byte(open + pick("1", `"x"`, "[1,2]", `{"k":[]}`) + close)
+			ops = []string{pick(`{"op":"test","path":"","value":1}`, `{"op":"add","path":"/zz","value":[{"q":[1]}]}`, `{"op":"add","path":"/0","value":1}`)}[:rng.Intn(2)]
+			a.indent = pick(" ", "  ", "\t", "   ")
 		}
 		patch := joinOps(ops)
 		emitApply(cfg.name, doc, ops, patch, a, cfg.extra)
@@ -624,6 +665,29 @@ func genMergePatch(doc interface{}, g genOpts, depth int) string {
 	return "{" + strings.Join(parts, ","+ws(g)) + "}"
 }
 
+// wideObjectPair: an object with several dozen members and a patch that deletes a run of
+// neighbouring members (and touches a few others)
+func wideObjectPair(g genOpts) ([]byte, []byte) {
+	n := 30 + rng.Intn(16)
+	var ms []string
+	for i := 0; i < n; i++ {
+		ms = append(ms, fmt.Sprintf(`"k%d":%s`, i, genValue(g, 1)))
+	}
+	start := rng.Intn(n - 6)
+	var ps []string
+	for i := start; i < start+2+rng.Intn(5); i++ {
+		ps = append(ps, fmt.Sprintf(`"k%d":null`, i))
+	}
+	if chance(0.5) {
+		ps = append(ps, fmt.Sprintf(`"k%d":%s`, rng.Intn(n), genValue(g, 1)), `"new":1`)
+	}
+	rng.Shuffle(len(ps), func(i, j int) { ps[i], ps[j] = ps[j], ps[i] })
+	doc, patch := "{"+strings.Join(ms, ",")+"}", "{"+strings.Join(ps, ",")+"}"
+	if chance(0.3) {
+		doc, patch = `{"w":`+doc+`}`, `{"w":`+patch+`}`
+	}
+	return []byte(doc), []byte(patch)
+}
 
 func mergeStream(n int) {
 	for i := 0; i < n; i++ {
@@ -638,6 +702,9 @@ func mergeStream(n int) {
 		}
 		if chance(0.08) {
 			doc, patch = sharedSubtreePair(g)
+		}
+		if chance(0.04) {
+			doc, patch = wideObjectPair(g)
 		}
 		if chance(0.03) {
 			patch = mutate(patch)
@@ -665,6 +732,14 @@ func merge3Stream(n int) {
 		}
 		if chance(0.05) {
 			p2 = []byte(genDoc(g))
+		}
+		if chance(0.004) {
+			// both patches hold objects along one long common path
+			d := int(pick64(40, 999, 1000, 1001, 1002, 1500))
+			chain := func(leaf string) []byte { return []byte(strings.Repeat(`{"a":`, d) + leaf + strings.Repeat("}", d)) }
+			p1 = chain(pick(`{"x":1,"gone":null}`, `{"x":{"y":1}}`, `{"k":null}`))
+			p2 = chain(pick(`{"y":null,"z":[1,null]}`, `{"x":null}`, `{"x":{"w":2},"q":1}`))
+			doc = []byte(pick(`{}`, string(chain(`{"x":0,"gone":5,"y":7}`)), `{"a":{"a":1}}`))
 		}
 		emitMerge3(doc, p1, p2)
 	}
@@ -856,6 +931,16 @@ func decodeStream(n int, exhaustive bool) {
 			ops = append(ops, op)
 		}
 		b := []byte("[" + strings.Join(ops, ",") + "]")
+		if chance(0.02) {
+			// two consecutive inputs: one cut off inside a unicode escape after k hex digits, then one
+			// whose first unicode escape is short by k digits (a recycled scanner must not remember)
+			k := 1 + rng.Intn(3)
+			hex := "0041"
+			decodeCase([]byte(`[{"op":"add","path":"/a","value":"` + "\\u" + hex[:k]))
+			decodeCase([]byte(`[{"op":"test","path":"/a","value":"` + "\\u" + hex[:4-k] + `"}]`))
+			decodeCase([]byte(`[{"op":"add","path":"/a","value":"` + "\\u" + hex[:k] + `x"}]`))
+			decodeCase([]byte(`[{"op":"test","path":"/` + "\\u" + hex[:4-k] + `","value":1}]`))
+		}
 		if chance(0.06) {
 			// total length at (or next to) the sizes in which a streaming decoder reads its input, with
 			// or without data after the array
@@ -920,41 +1005,41 @@ func validCase(b []byte, full bool) {
 	fields := []kv{{"in", hx(b)}, {"status", st}, {"valid", b2s(v)}}
 	if full {
 		stFull := guarded(func() {
-		var cb, ib, hb bytes.Buffer
-		cerr := ijson.Compact(&cb, b)
-		ierr := ijson.Indent(&ib, b, "", "  ")
-		var anyv interface{}
-		uerr := ijson.Unmarshal(b, &anyv)
-		fields = append(fields, kv{"compact", b2s(cerr == nil) + hx(cb.Bytes())}, kv{"indent", b2s(ierr == nil) + hx(ib.Bytes())}, kv{"unmarshal", b2s(uerr == nil)})
-		if v {
-			ijson.HTMLEscape(&hb, b)
-			fields = append(fields, kv{"htmlescape", hx(hb.Bytes())})
-			if uerr == nil {
-				m1, e1 := ijson.MarshalEscaped(anyv, true)
-				m0, e0 := ijson.MarshalEscaped(anyv, false)
-				fields = append(fields, kv{"remarshal1", b2s(e1 == nil) + hx(m1)}, kv{"remarshal0", b2s(e0 == nil) + hx(m0)})
-			}
-			var mp map[string]ijson.RawMessage
-			if keys, err := ijson.UnmarshalWithKeys(b, &mp); err == nil && mp != nil {
-				var ks []string
-				for _, k := range keys {
-					ks = append(ks, hx([]byte(k)))
+			var cb, ib, hb bytes.Buffer
+			cerr := ijson.Compact(&cb, b)
+			ierr := ijson.Indent(&ib, b, "", "  ")
+			var anyv interface{}
+			uerr := ijson.Unmarshal(b, &anyv)
+			fields = append(fields, kv{"compact", b2s(cerr == nil) + hx(cb.Bytes())}, kv{"indent", b2s(ierr == nil) + hx(ib.Bytes())}, kv{"unmarshal", b2s(uerr == nil)})
+			if v {
+				ijson.HTMLEscape(&hb, b)
+				fields = append(fields, kv{"htmlescape", hx(hb.Bytes())})
+				if uerr == nil {
+					m1, e1 := ijson.MarshalEscaped(anyv, true)
+					m0, e0 := ijson.MarshalEscaped(anyv, false)
+					fields = append(fields, kv{"remarshal1", b2s(e1 == nil) + hx(m1)}, kv{"remarshal0", b2s(e0 == nil) + hx(m0)})
 				}
-				fields = append(fields, kv{"keys", strings.Join(ks, ",")})
+				var mp map[string]ijson.RawMessage
+				if keys, err := ijson.UnmarshalWithKeys(b, &mp); err == nil && mp != nil {
+					var ks []string
+					for _, k := range keys {
+						ks = append(ks, hx([]byte(k)))
+					}
+					fields = append(fields, kv{"keys", strings.Join(ks, ",")})
+				}
 			}
-		}
-		// the public entry points on this text
-		var eq bool
-		st1 := guarded(func() { eq = jsonpatch.Equal(b, b) })
-		_, derr := jsonpatch.DecodePatch(b)
-		mo := runMerge(false, b, b)
-		co := runCreate(b, b)
-		p0, _ := jsonpatch.DecodePatch([]byte("[]"))
-		var aerr error
-		var aout []byte
-		st2 := guarded(func() { aout, aerr = p0.Apply(b) })
-		fields = append(fields, kv{"api", st1 + b2s(eq) + "," + b2s(derr == nil) + "," + mo.status + "," + co.status + "," + st2 + b2s(aerr == nil) + hx(aout)})
-			})
+			// the public entry points on this text
+			var eq bool
+			st1 := guarded(func() { eq = jsonpatch.Equal(b, b) })
+			_, derr := jsonpatch.DecodePatch(b)
+			mo := runMerge(false, b, b)
+			co := runCreate(b, b)
+			p0, _ := jsonpatch.DecodePatch([]byte("[]"))
+			var aerr error
+			var aout []byte
+			st2 := guarded(func() { aout, aerr = p0.Apply(b) })
+			fields = append(fields, kv{"api", st1 + b2s(eq) + "," + b2s(derr == nil) + "," + mo.status + "," + co.status + "," + st2 + b2s(aerr == nil) + hx(aout)})
+		})
 		if stFull != "ok" {
 			fields[1] = kv{"status", stFull}
 		}
